@@ -257,7 +257,24 @@ def correspondence(outcome, tier, seed):
         lines.append("JT %ds S %s" % (i, shared.hx(d)))
         lines.append("JT %dr R %s" % (i, shared.hx(d)))
         lines.append("JW %dw %s" % (i, shared.hx(d)))
+    # the JSON detection trial on the same inputs (JsonTrialModel.v against serde_json's ignore_value through xt's input_matches)
+    treqs = [{"id": i, "op": "trials", "input": shared.hx(d)} for i, d in enumerate(ins)]
+    tresps = common.harness_batch(treqs, timeout=1800, jobs=16)
+    for i, d in enumerate(ins):
+        lines.append("JI %dt %s" % (i, shared.hx(d)))
     model = common.run_driver_lines(lines)
+    tv = {}
+    for i, d in enumerate(ins):
+        r = tresps[i]
+        if r.get("panic") or r.get("crash") or r.get("hang") or "json" not in r:
+            continue
+        got = "%d %d" % (r["json"], r["json_reader"])
+        tv[got] = tv.get(got, 0) + 1
+        if got != model.get("%dt" % i, "?"):
+            outcome.disagreements.append({"what": "the JSON detection trial (slice, reader) differs from the model of serde_json's ignore_value",
+                                          "input_hex": shared.hx(d)[:4000], "input": d[:200].decode("utf-8", "replace"),
+                                          "implementation": got, "model": model.get("%dt" % i, "?")})
+    outcome.extra["json_trial_correspondence"] = {"inputs": len(ins), "verdicts(slice reader)": tv}
     n_written = 0
     for i, d in enumerate(ins):
         m = model.get("%dw" % i, "missing")
